@@ -66,6 +66,7 @@ def cfg_for(st):
 scl = WalScenario(ck, ex, 'TensorWal::open', 'TensorWal::append', 'TensorWal::replay', 'WalEntry', open_args=lambda st: [cfg_for(st)])
 ck.declare('D3_log_content_decided_under_the_log_lock', 'same',
            'every entity-index lookup that decides which records a durable write logs (EntityIndex::get / get_or_create) happens while the log lock is held: what is logged describes the state the write is applied to')
+ck.declare('D4_nothing_logged_after_the_apply', 'same', 'the log file does not grow between the in-memory apply and the return: every record of the write was appended before it took effect')
 ck.declare('D1_apply_under_the_log_lock', 'put_durable / delete_durable on every key class',
            'a durable key: the slab is touched exactly once, after the record is in the log, and while the log lock of that append is still held; cache keys are applied without logging')
 logged = 0
@@ -101,6 +102,10 @@ for op in ('put_durable', 'delete_durable'):
             logged += 1
         ck.require(ex, 'D1_apply_under_the_log_lock', r.pc, z3.Not(is_cache), z3.BoolVal(bool(held and flen > 0)), wit, lambda m, w: 'apply-outside-log-lock')
         ck.require(ex, 'D1_apply_under_the_log_lock', r.pc, is_cache, z3.BoolVal(flen == 0), wit, lambda m, w: 'cache-key-logged')
+        # D4: the whole log image of the write exists before the apply - nothing is appended afterwards
+        final_len = len(scl.file(r.st).data)
+        ck.require(ex, 'D4_nothing_logged_after_the_apply', r.pc, z3.Not(is_cache), z3.BoolVal(final_len == flen),
+                   lambda m, op=op: {'router_op': op, 'key_class': 'Embedding', 'embedding': True, 'attempts': 40}, lambda m, w: 'record-logged-after-apply')
         idx = [x for x in r.st.notes if x[0] == 'index']
         ck.require(ex, 'D3_log_content_decided_under_the_log_lock', r.pc, z3.Not(is_cache), z3.BoolVal(all(x[2] for x in idx)),
                    lambda m, op=op: {'router_op': op, 'key_class': 'Embedding', 'window': 'before_lock'}, lambda m, w: 'index-read-outside-log-lock')
@@ -163,7 +168,15 @@ for v in ck.violations:
         # the other thread creates the embedding key just before this write takes the log lock
         rep = Replay.call({'op': 'durable_order', 'router_op': w['router_op'], 'key_class': 'Embedding', 'window': 'before_lock', 'embedding': True, 'fresh_key': True})
     else:
-        rep = Replay.call({'op': 'checkpoint_race', 'records': w.get('records', 1)} if w['router_op'] == 'checkpoint' else {'op': 'durable_order', 'router_op': w['router_op'], 'key_class': w['key_class']})
+        rep = Replay.call({'op': 'checkpoint_race', 'records': w.get('records', 1)} if w['router_op'] == 'checkpoint' else
+                          {'op': 'durable_order', 'router_op': w['router_op'], 'key_class': w['key_class'], 'embedding': w.get('embedding', False), 'attempts': w.get('attempts', 1)})
+        if not rep.get('violates') and w.get('embedding') and w['router_op'] == 'put_durable':
+            # no schedule point at this window in the code under test.  D4's own statement is observable single-threaded: the hook
+            # fires right before the apply, and the log must not grow between that moment and the return
+            if v['obligation'].startswith('D4'):
+                rep = Replay.call({'op': 'durable_log_growth', 'router_op': w['router_op']})
+            if not rep.get('violates'):
+                rep = Replay.call({'op': 'durable_stress', 'rounds': 60})
     v['native'] = rep
     v['replayed'] = rep.get('violates')
 ck.functions += ['SlabRouter::put_durable', 'SlabRouter::delete_durable', 'TensorWal::append']
